@@ -254,45 +254,6 @@ def fault_part(ck):
     return {"crash_points_injected": covered, "crash_points_distinct": len(distinct)}
 
 
-def _resume_job(job):
-    """Worker: run with save_every, then for every checkpoint: fresh sampler, load + resume to completion."""
-    core.import_repo()
-    import warnings
-
-    warnings.filterwarnings("ignore")
-    import numpy as np
-    from vlib import drivers, psrun as ps
-
-    out_dir = tempfile.mkdtemp(prefix="c08run_")
-    traces = []
-    try:
-        conf = job["conf"]
-        c = dict(drivers.DEFAULTS)
-        c.update(conf)
-        rec = ps.Recorder(c["n_dim"], have_blobs=(c["evaluation"] == "blobs"), label=job["label"])
-        _, s, tr = drivers.record_run(conf, n_total=job["n_total"], seed=job["seed"], label=job["label"] + "|base", save_every=job["save_every"],
-                                      out_dir=out_dir, rec=rec)
-        traces.append(tr)
-        files = sorted(glob.glob(os.path.join(out_dir, "ps_*.state")))
-        if job.get("max_ckpt"):
-            keep = [f for f in files if not f.endswith("_final.state")]
-            step = max(1, len(keep) // job["max_ckpt"])
-            files = keep[::step][: job["max_ckpt"]] + [f for f in files if f.endswith("_final.state")]
-        for f in files:
-            s2, _ = drivers.build_sampler(conf, rec, out_dir=out_dir)
-            rec.attach(s2)
-            np.random.seed(12345)  # the ambient stream of the resuming process is unrelated
-            _, _, tr2 = drivers.record_run(conf, n_total=job["n_total"], seed=12345, label=job["label"] + "|resume:" + os.path.basename(f),
-                                           resume=f, out_dir=out_dir, rec=rec, sampler=s2, save_every=None)
-            tr2["meta"]["checkpoint"] = os.path.basename(f)
-            traces.append(tr2)
-    finally:
-        shutil.rmtree(out_dir, ignore_errors=True)
-    for t in traces:
-        t["meta"]["conf"] = {k: (v if isinstance(v, (int, float, str, bool, type(None), list)) else repr(v)) for k, v in dict(drivers.DEFAULTS, **job["conf"]).items()}
-    return traces
-
-
 def resume_part(ck):
     import concurrent.futures as cf
     import multiprocessing as mp
@@ -308,7 +269,7 @@ def resume_part(ck):
                  max_ckpt=4 if ck.tier == "quick" else None) for i, c in enumerate(confs)]
     results = [None] * len(jobs)
     with cf.ProcessPoolExecutor(max_workers=sysrun.PROCS, mp_context=mp.get_context("fork")) as ex:
-        futs = {ex.submit(_resume_job, j): i for i, j in enumerate(jobs)}
+        futs = {ex.submit(sysrun.resume_job, j): i for i, j in enumerate(jobs)}
         for fu in cf.as_completed(futs):
             results[futs[fu]] = fu.result()
     traces = [t for r in results for t in r]
